@@ -44,8 +44,9 @@ REC_FIELDS = {}     # class name -> [(parameter, type, attribute)] of the functi
 
 
 def canon(v):
-    if type(v).__name__ in REC_FIELDS and not isinstance(v, (int, bytes, bytearray, tuple, list, set, str)):
-        fl = REC_FIELDS[type(v).__name__]
+    rec = [c.__name__ for c in type(v).__mro__ if c.__name__ in REC_FIELDS]
+    if rec and not isinstance(v, (int, bytes, bytearray, tuple, list, set, str)):
+        fl = REC_FIELDS[rec[0]]
         return "(" + ", ".join(canon(getattr(v, a or p)) for (p, _t, a) in fl) + ")"
     if isinstance(v, bool):
         return "True" if v else "False"
@@ -140,6 +141,40 @@ class Dummy(object):
         return Dummy()
 
 
+def stub_hash(seed, args):
+    h = seed * 1009 % 65521
+    for x in args:
+        h = (h * 31 + (x % 65521) + 7) % 65521
+    return h
+
+
+def make_stub(seed, rty, mon):
+    """the Python side of `stubBytes` / `stubInt` in Gen/FnDispatch.lean"""
+    def flat(a):
+        out = []
+        for v in a:
+            if isinstance(v, bool):
+                out.append(1 if v else 0)
+            elif isinstance(v, int):
+                out.append(v)
+            else:
+                out += list(bytes(v))
+        return out
+
+    def f(*a, **kw):
+        args = flat(list(a) + list(kw.values()))
+        h = stub_hash(seed, args)
+        if mon and h % 11 == 0:
+            raise IndexError("stub")
+        if mon and rty == T.BYTES and h % 11 == 1:
+            import nfc.tag
+            raise nfc.tag.TagCommandError(1)
+        if rty == T.BYTES:
+            return bytearray((h // (i + 1)) % 256 for i in range(h % 5))
+        return h % 300 - 20
+    return f
+
+
 class Truthy(types.SimpleNamespace):
     """an object that is bound both as a value (its truth value / comparison) and through its attributes"""
     def __init__(self, value):
@@ -176,6 +211,20 @@ class SliceSelf(types.SimpleNamespace):
         return Dummy()
 
 
+def install_stubs(sp, obj, roots):
+    for k, (text, (pname, atys, rty, mon)) in enumerate(sorted(sp.opaque.items())):
+        parts = text.split(".")
+        o = obj if parts[0] in ("self", "cls") else roots.setdefault(parts[0], SliceSelf())
+        for p in parts[1:-1]:
+            if p not in getattr(o, "__dict__", {}):
+                o.__dict__[p] = SliceSelf()
+            o = o.__dict__[p]
+        if len(parts) > 1:
+            o.__dict__[parts[-1]] = make_stub(k + 1, rty, mon)
+        else:
+            roots[parts[0]] = make_stub(k + 1, rty, mon)
+
+
 def make_self(sp, cls, bind_vals, roots=None):
     """an object of the real class (no __init__) carrying the bound attributes; for a translated slice a
     plain namespace (the slice only reads the bound attributes).  Attribute chains that do not start at
@@ -197,6 +246,8 @@ def make_self(sp, cls, bind_vals, roots=None):
             o = roots.setdefault(parts[0], SliceSelf())
         else:
             o = obj
+        if False:
+            pass
         for p in parts[1:-1]:
             cur = getattr(o, "__dict__", {}).get(p, None)
             if p not in getattr(o, "__dict__", {}) or cur is None:
@@ -232,7 +283,11 @@ def real_callable(sp, mod, path):
             return lambda pv, bv: raw.fget(make_self(sp, cls, bv))
         if isinstance(raw, classmethod):
             return lambda pv, bv: raw.__func__(cls, *[py_value(t, v) for (_, t), v in zip(sp.params, pv)])
-        return lambda pv, bv: raw(make_self(sp, cls, bv), *[py_value(t, v) for (_, t), v in zip(sp.params, pv)])
+        def run_method(pv, bv):
+            me = make_self(sp, cls, bv)
+            install_stubs(sp, me, {})
+            return raw(me, *[py_value(t, v) for (_, t), v in zip(sp.params, pv)])
+        return run_method
     # a slice of the method: compile exactly those statements in the namespace of the real module
     tree = ast.parse(open(path).read())
     node = T.find_def_node(tree, sp.qual)
@@ -308,6 +363,7 @@ def real_callable(sp, mod, path):
     def run(pv, bv):
         roots = {}
         me = make_self(sp, cls, bv, roots)
+        install_stubs(sp, me, roots)
         for text in sp.stores:                   # stored attributes of objects other than self: a fresh stand-in
             r = text.split(".")[0]
             if r not in ("self", "cls") and r not in roots:
@@ -454,8 +510,8 @@ def part1(seed, n, verbose=True):
         if sp.refused:
             rows.append((sp.lean, "refused", 0, 0, sp.refused))
             continue
-        if sp.opaque:
-            rows.append((sp.lean, "not-run", 0, 0, "function-valued parameters"))
+        if sp.opaque and not all(set(a) <= {T.INT, T.BYTES, T.BOOL} and r in (T.INT, T.BYTES) for (_, a, r, _) in sp.opaque.values()):
+            rows.append((sp.lean, "not-run", 0, 0, "function-valued parameters of unsupported types"))
             continue
         mod = load_module(sp)
         path = os.path.join(common.REPO, "src", "nfc", sp.file)
